@@ -325,6 +325,11 @@ func c16File(t *rapid.T) ([]byte, bool) {
 func c16Record(path, q string) (msg string) {
 	sh := history.NewSearchHistory(path, 100)
 	_ = sh.Load() // errors ignored, as the CLI does
+	first := len(sh.Entries)
+	_ = sh.Load() // loading again gives the same log (whatever maximum the first load took over)
+	if len(sh.Entries) != first {
+		return fmt.Sprintf("loading the same file twice gives %d entries, then %d", first, len(sh.Entries))
+	}
 	if msg := c16ViewsAgree(sh); msg != "" {
 		return "after loading the file: " + msg
 	}
